@@ -6,6 +6,7 @@ import (
 	"hash/fnv"
 	"math/rand"
 	"path/filepath"
+	"sort"
 	"strings"
 	"time"
 
@@ -484,8 +485,84 @@ func buildFaultCases(r *core.Run, rng *rand.Rand, onlyBig bool) (cases []faultCa
 			addCase(fileInput{Name: fmt.Sprintf("xmp-long-token#%d/%d", n, k), Kind: "xmp", Data: d}, -1, "EOF", fmt.Sprintf("XMP packet with a %d-byte token (form %d)", n, k), uint32(k))
 		}
 	}
-	info = map[string]interface{}{"plans_applied": nplans, "base_files": len(bases), "plans_emitted": len(plans)}
+	// (f) honest but large / repetitive files: the cases of the cost model Scale
+	nscale, ok := addScaleCases(r, rng, onlyBig, addCase)
+	if !ok {
+		return nil, nil, false
+	}
+	info = map[string]interface{}{"plans_applied": nplans, "base_files": len(bases), "plans_emitted": len(plans), "scaled_inputs": nscale}
 	return cases, info, true
+}
+
+// addScaleCases model-checks Scale (the linear design and its three deviations) and concretises every emitted
+// (family, unit, size, repetitions) into a truthful file of that family.
+func addScaleCases(r *core.Run, rng *rand.Rand, onlyBig bool, addCase func(in fileInput, cut int, fault, what string, salt uint32)) (int, bool) {
+	for _, dev := range []string{"perUnit", "regrow", "rescan"} {
+		s, err := core.RunTLC(core.TLCOpts{Module: "MC_Scale", Cfg: "Scale." + dev + ".cfg", Workers: 2, Timeout: 10 * time.Minute})
+		if err != nil || s.Violated == "" {
+			r.Machinery("Scale (%s deviation) was expected to violate a bound in the model: %v %s", dev, err, tail(s))
+			s.Cleanup()
+			return 0, false
+		}
+		r.Extra["deviation_"+dev] = "violates " + s.Violated
+		s.Cleanup()
+	}
+	t, err := core.RunTLC(core.TLCOpts{Module: "MC_Scale", Cfg: "Scale.linear.cfg", Workers: 4, Timeout: 10 * time.Minute})
+	defer t.Cleanup()
+	if err != nil || !t.OK {
+		r.Machinery("TLC run on Scale failed: %v %s", err, tail(t))
+		return 0, false
+	}
+	r.AddTLC("Scale.linear", t)
+	type sc struct {
+		Fam  string `json:"fam"`
+		Unit string `json:"unit"`
+		Size int    `json:"size"`
+		N    int    `json:"n"`
+	}
+	var scs []sc
+	if _, err = core.ReadEmitted(filepath.Join(t.Dir, "emit.ndjson"), func(raw json.RawMessage) error {
+		var c sc
+		if e := json.Unmarshal(raw, &c); e != nil {
+			return e
+		}
+		scs = append(scs, c)
+		return nil
+	}); err != nil || len(scs) == 0 {
+		r.Machinery("reading emitted Scale cases: %v (n=%d)", err, len(scs))
+		return 0, false
+	}
+	sort.Slice(scs, func(i, j int) bool {
+		a, b := scs[i], scs[j]
+		if a.Fam != b.Fam {
+			return a.Fam < b.Fam
+		}
+		if a.Unit != b.Unit {
+			return a.Unit < b.Unit
+		}
+		if a.Size != b.Size {
+			return a.Size < b.Size
+		}
+		return a.N < b.N
+	})
+	tiff := gen.BuildFullTIFF(rand.New(rand.NewSource(r.Seed)), "LE")
+	for i, c := range scs {
+		d, kind := gen.BuildScaled(c.Fam, c.Unit, c.Size, c.N, tiff)
+		if d == nil {
+			r.Machinery("no generator for scale unit %s/%s", c.Fam, c.Unit)
+			return 0, false
+		}
+		name := fmt.Sprintf("scale:%s/%s size=%d n=%d", c.Fam, c.Unit, c.Size, c.N)
+		in := fileInput{Name: name, Kind: kind, Data: d, Gen: true}
+		addCase(in, -1, "EOF", fmt.Sprintf("truthful file: %d x %s (%d bytes in all)", c.N, c.Unit, len(d)), uint32(i))
+		// many pending records + a stream that ends at ANY position: every truncation point of the 64-fold files
+		if c.N == 64 && len(d) <= 2500 && !onlyBig {
+			for k := 0; k <= len(d); k++ {
+				addCase(in, k, []string{"EOF", "ERR"}[k%2], fmt.Sprintf("truthful file of 64 x %s truncated at %d", c.Unit, k), uint32(k))
+			}
+		}
+	}
+	return len(scs), true
 }
 
 func runFaults(r *core.Run, prop string) {
